@@ -6,7 +6,7 @@ use anyhow::Result;
 use proc_macro2::TokenStream;
 
 use super::common::{Codegen, CodegenSettings, FieldDescriptor};
-use crate::grammar::{Choice, Grammar, Grammar_rules, IncludeRule};
+use crate::grammar::{Choice, DelimitedExpression, Grammar, Grammar_rules, IncludeRule};
 
 impl Codegen for IncludeRule {
     fn generate_code_spec(
@@ -48,4 +48,58 @@ impl IncludeRule {
             })?
             .definition)
     }
+}
+
+/// Names of the rules included (with `>`) anywhere in the expression
+fn collect_includes<'a>(choice: &'a Choice, result: &mut Vec<&'a str>) {
+    fn collect_from_expression<'a>(expr: &'a DelimitedExpression, result: &mut Vec<&'a str>) {
+        match expr {
+            DelimitedExpression::Group(e) => collect_includes(&e.body, result),
+            DelimitedExpression::Optional(e) => collect_includes(&e.body, result),
+            DelimitedExpression::Closure(e) => collect_includes(&e.body, result),
+            DelimitedExpression::NegativeLookahead(e) => collect_from_expression(&e.expr, result),
+            DelimitedExpression::PositiveLookahead(e) => collect_from_expression(&e.expr, result),
+            DelimitedExpression::IncludeRule(e) => result.push(&e.rule),
+            DelimitedExpression::CharacterRange(_)
+            | DelimitedExpression::StringLiteral(_)
+            | DelimitedExpression::EndOfInput(_)
+            | DelimitedExpression::Field(_) => (),
+        }
+    }
+    for sequence in &choice.choices {
+        for part in &sequence.parts {
+            collect_from_expression(part, result);
+        }
+    }
+}
+
+/// Includes are expanded in place, so a rule that (transitively) includes itself can never be
+/// generated. Report it as an error instead of recursing until the stack overflows.
+pub fn check_include_cycles(grammar: &Grammar) -> Result<()> {
+    fn visit<'a>(grammar: &'a Grammar, rule_name: &'a str, path: &mut Vec<&'a str>) -> Result<()> {
+        if path.contains(&rule_name) {
+            path.push(rule_name);
+            anyhow::bail!("Include (>) cycle detected: {}", path.join(" -> "));
+        }
+        let rule = grammar.rules.iter().find_map(|r| match r {
+            Grammar_rules::Rule(r) if r.name == rule_name => Some(r),
+            _ => None,
+        });
+        if let Some(rule) = rule {
+            let mut includes = Vec::new();
+            collect_includes(&rule.definition, &mut includes);
+            path.push(rule_name);
+            for included in includes {
+                visit(grammar, included, path)?;
+            }
+            path.pop();
+        }
+        Ok(())
+    }
+    for rule_entry in &grammar.rules {
+        if let Grammar_rules::Rule(rule) = rule_entry {
+            visit(grammar, &rule.name, &mut Vec::new())?;
+        }
+    }
+    Ok(())
 }
